@@ -127,7 +127,7 @@ Print Assumptions C09_char64_legacy_refuted.
    raw or with print_escaped_char's escapes; every length 0, 1, 2, ... and every byte value 1..255. *)
 Theorem C09_str_arg_roundtrip : forall syms fill inp st s p c,
   m_stop st = false -> is_arg s -> s_fmt s = FStr -> s_size s = 8 -> lenN (m_val st) = VAL_SIZE ->
-  arg_word inp s = Some p -> p < 2 ^ 64 -> p <> 0 -> assoc p (strs inp) = Some c ->
+  arg_word inp s = Some p -> p < 2 ^ 64 -> p <> 0 -> lookup_str (strs inp) p = Some c ->
   nz c -> c <> [255; 255; 255; 255] ->
   m_total st + need s (AStr c) <= MAX_SIZE ->
   exists chunk,
@@ -356,3 +356,34 @@ Theorem C09_struct_sse_legacy_refuted :
   Legacy.payload (Legacy.run 0 inp false [sp]) = Some [1; 0; 0; 0; 0; 0; 0; 0; 2; 0; 0; 0; 0; 0; 0; 0].
 Proof. exact LegacyProofs.struct_sse_refuted. Qed.
 Print Assumptions C09_struct_sse_legacy_refuted.
+
+(* ---------------------------------------------------------------- only vetted pointers are dereferenced *)
+(* check_mem_region / find_mem_region: readable memory is a set of half-open ranges [start, end) (model: lookup_str over
+   the declared objects).  Whatever the specs and the register / stack contents, every pointer save_to_argbuf
+   dereferences (run_derefs: str[0] of a string argument, the std::string object) lies inside such a range ... *)
+Theorem C09_derefs_readable : forall fill inp is_ret specs,
+  Forall (fun a => readable inp a = true) (run_derefs fill inp is_ret specs).
+Proof. exact derefs_readable. Qed.
+Print Assumptions C09_derefs_readable.
+
+(* ... where first byte and last byte of a range are inside and its end address (one past the last byte) and the byte in
+   front of it are not *)
+Theorem C09_region_half_open : forall a c,
+  lookup_str [(a, c)] a = Some c /\
+  lookup_str [(a, c)] (a + lenN c) = Some [] /\
+  lookup_str [(a, c)] (a + lenN c + 1) = None /\
+  (0 < a -> lookup_str [(a, c)] (a - 1) = None).
+Proof. exact lookup_half_open. Qed.
+Print Assumptions C09_region_half_open.
+
+(* a string pointer equal to the END of a readable range is not dereferenced and is shown as "<0x...>" (C09_unreadable_pointer
+   is the general statement); one byte earlier it is the string's NUL: dereferenced, shown as "" *)
+Theorem C09_end_of_range_not_dereferenced :
+  let inp := {| regs := [4096 + 4; 0; 0; 0; 0; 0]; xmm := []; stk := []; rets := []; strs := [(4096, [69; 69; 69])]; wrds := [] |} in
+  run_derefs 0 inp false [spec_str 1] = [] /\
+  show_args_b [] [spec_str 1] (payload (run 0 inp false [spec_str 1])) = [40; 34] ++ bad_ptr_text 4100 ++ [34; 41] /\
+  let inp' := {| regs := [4096 + 3; 0; 0; 0; 0; 0]; xmm := []; stk := []; rets := []; strs := [(4096, [69; 69; 69])]; wrds := [] |} in
+  run_derefs 0 inp' false [spec_str 1] = [4099] /\
+  show_args_b [] [spec_str 1] (payload (run 0 inp' false [spec_str 1])) = [40; 34; 34; 41].
+Proof. exact end_of_range_not_dereferenced. Qed.
+Print Assumptions C09_end_of_range_not_dereferenced.
